@@ -124,6 +124,8 @@ pub struct EnvConfig {
     pub grant_menu: Vec<usize>,
     /// once stalled the transport never takes another byte (a dead peer): no grant is offered
     pub no_grants: bool,
+    /// a stalled transport only ever opens by the amounts of `grant_menu` (a trickling peer)
+    pub no_grant_all: bool,
     /// the transport stops taking writes from the moment the client has sealed its output
     /// (whatever sealed it - a close, a client exception - then sits in the buffer until a grant)
     pub stall_on_seal: bool,
@@ -160,6 +162,7 @@ impl Default for EnvConfig {
             stall_after: None,
             grant_menu: vec![],
             no_grants: false,
+            no_grant_all: false,
             force_cuts: Vec::new(),
             stall_on_seal: false,
             faults: vec![],
@@ -239,6 +242,8 @@ pub struct Outcome {
     pub io_exit_time_ns: Option<u64>,
     /// a transport fault (EOF / read error / write error) was actually presented to the client
     pub fault_injected: bool,
+    /// transport faults presented, in order
+    pub faults_used: Vec<FaultKind>,
 }
 
 struct St {
@@ -477,7 +482,9 @@ impl St {
                 }
             }
             if self.tr.capacity == Some(0) && !self.cfg.no_grants {
-                v.push(Choice::Env(EnvAction::Grant(usize::MAX), "grant(all)".into()));
+                if !self.cfg.no_grant_all || self.cfg.grant_menu.is_empty() {
+                    v.push(Choice::Env(EnvAction::Grant(usize::MAX), "grant(all)".into()));
+                }
                 for g in &self.cfg.grant_menu {
                     v.push(Choice::Env(EnvAction::Grant(*g), format!("grant({})", g)));
                 }
@@ -937,6 +944,7 @@ impl World {
         o.gate_outbufs = st.gate_outbufs.clone();
         o.io_exit_time_ns = st.io_exit_time_ns;
         o.fault_injected = st.tr.crash_done || st.tr.write_err;
+        o.faults_used = st.tr.faults_used.clone();
         (st.points.clone(), o)
     }
 
